@@ -336,3 +336,64 @@ func FindTags(b []byte) (out []FoundTag) {
 
 // SeqHeaderVersionTag: the PPS of sequence-header version `ver` carries Tag(inc, 1000000+ver).
 const SeqHdrTagBase = 1000000
+
+// HEVC parameter sets of a real 640x360 x265 stream.
+var (
+	HevcVps = []byte{0x40, 0x01, 0x0c, 0x01, 0xff, 0xff, 0x01, 0x60, 0x00, 0x00, 0x03, 0x00, 0x90, 0x00, 0x00, 0x03, 0x00, 0x00, 0x03, 0x00, 0x3f, 0xba, 0x02, 0x40}
+	HevcSps = []byte{0x42, 0x01, 0x01, 0x01, 0x60, 0x00, 0x00, 0x03, 0x00, 0x90, 0x00, 0x00, 0x03, 0x00, 0x00, 0x03, 0x00, 0x3f, 0xa0, 0x05, 0x02, 0x01, 0x71, 0xf2, 0xe5, 0xba, 0x4a, 0x4c, 0x2f, 0x01, 0x01, 0x00, 0x00, 0x03, 0x00, 0x01, 0x00, 0x00, 0x03, 0x00, 0x0f, 0x08}
+	HevcPps = []byte{0x44, 0x01, 0xc0, 0x73, 0xc1, 0x89}
+)
+
+// HevcPpsVer returns a PPS that carries a version tag (distinct sequence headers).
+func HevcPpsVer(inc, ver int) []byte {
+	return append(append([]byte(nil), HevcPps...), Tag(inc, SeqHdrTagBase+ver)...)
+}
+
+// HevcSeqHeader builds an HEVCDecoderConfigurationRecord message payload, classic
+// (0x1c 00 …) or enhanced-RTMP (0x90 'hvc1' …).
+func HevcSeqHeader(inc, ver int, enhanced bool) []byte {
+	pps := HevcPpsVer(inc, ver)
+	rec := []byte{0x01, 0x01, 0x60, 0x00, 0x00, 0x00, 0x90, 0x00, 0x00, 0x00, 0x00, 0x00, 0x3f, 0xf0, 0x00, 0xfc, 0xfd, 0xf8, 0xf8, 0x00, 0x00, 0x0f, 0x03}
+	for _, x := range []struct {
+		t byte
+		n []byte
+	}{{0x20, HevcVps}, {0x21, HevcSps}, {0x22, pps}} {
+		rec = append(rec, x.t, 0x00, 0x01, byte(len(x.n)>>8), byte(len(x.n)))
+		rec = append(rec, x.n...)
+	}
+	if enhanced {
+		return append([]byte{0x90, 'h', 'v', 'c', '1'}, rec...)
+	}
+	return append([]byte{0x1c, 0, 0, 0, 0}, rec...)
+}
+
+// HevcFrame builds a video message with one tagged NAL. mode: 0 classic, 1 enhanced CodedFrames
+// (with composition time), 2 enhanced CodedFramesX.
+func HevcFrame(r *rand.Rand, inc, idx int, key bool, cts int, size int, mode int) []byte {
+	nalType := byte(1) // TRAIL_R
+	if key {
+		nalType = 19 // IDR_W_RADL
+	}
+	var b []byte
+	ft := byte(2)
+	if key {
+		ft = 1
+	}
+	switch mode {
+	case 0:
+		b = []byte{ft<<4 | 12, 1, byte(cts >> 16), byte(cts >> 8), byte(cts)}
+	case 1:
+		b = []byte{0x80 | ft<<4 | 1, 'h', 'v', 'c', '1', byte(cts >> 16), byte(cts >> 8), byte(cts)}
+	default:
+		b = []byte{0x80 | ft<<4 | 3, 'h', 'v', 'c', '1'}
+	}
+	hdr := len(b)
+	if size < hdr+4+2+12 {
+		size = hdr + 4 + 2 + 12
+	}
+	n := size - hdr - 4
+	b = append(b, byte(n>>24), byte(n>>16), byte(n>>8), byte(n), nalType<<1, 1)
+	b = append(b, Tag(inc, idx)...)
+	b = append(b, fill(r, size-len(b))...)
+	return b
+}
